@@ -3,8 +3,8 @@ import ast
 
 from ..core import rule
 from ..index import AnalysisError, dotted, src, walk_no_nested, PKG, names_in
-from ..cfg import CFG
-from ..util import node_calls, own_expr, reach_expr, pred_is, arg
+from ..cfg import CFG, UNK, eval3
+from ..util import node_calls, own_expr, reach_expr, pred_is, arg, last_name as last_name_
 from ..domains import linform
 from .slots import FEATURES, MOLECULE, FRAGMENT, P
 
@@ -422,6 +422,92 @@ def r6(ctx):
                         ok = lf is not None and lf.const == 0 and len(lf.coef) == 1
                         ctx.emit('C16-R6', ok, rel, c, f'{q}: blocks of get_aligned_blocks() are inclusive; the closed query is given end `{src(endarg)}`', key=f'{q}:closed-block-end')
     ctx.need('C16-R6', n, 2, 'block-wise range queries of the annotation code')
+
+
+@rule('C16', 'C16-R7', 'strand handling and the point-lookup accelerator: the strand filter is off exactly when the molecule is unstranded (stranded is None), '
+                       'every point lookup of a range query carries the query strand, and the per-feature start index of sort() is the lowest start among '
+                       'the features overlapping the feature start')
+def r7(ctx):
+    from ..util import explore, mk_atoms
+    # (a) strand selection of the annotation: decision table over stranded in {None, False, True}
+    f = ctx.fn(FEATMOL, 'FeatureAnnotatedMolecule.annotate')
+    table = {}
+    for val in (None, False, True):
+        facts = {'self.stranded is None': val is None, 'self.stranded is not None': val is not None, 'self.stranded': bool(val), 'not self.stranded': not bool(val),
+                 'self.stranded is True': val is True, 'self.stranded is False': val is False, 'self.stranded == True': val is True, 'self.stranded == False': val is False}
+        base = mk_atoms(facts)
+
+        def at(e, base=base, facts=facts):
+            v = base(e)
+            if v is UNK and isinstance(e, ast.UnaryOp) and isinstance(e.op, ast.Not) and src(e.operand) in facts:
+                return not facts[src(e.operand)]
+            return v
+        rs = explore(f.body, at, names=('strand',), max_paths=4000)
+        outs = set()
+        for r in rs:
+            e_ = r['env'].get('strand')
+            for _ in range(3):
+                if isinstance(e_, ast.IfExp):
+                    t_ = eval3(e_.test, {}, at)
+                    if t_ is UNK:
+                        break
+                    e_ = e_.body if t_ else e_.orelse
+            outs.add('None' if (isinstance(e_, ast.Constant) and e_.value is None) else ('unset' if e_ is None else ('?' if isinstance(e_, ast.IfExp) else 'strand')))
+        table[val] = outs
+    want = {None: {'None'}, False: {'strand'}, True: {'strand'}}
+    ok = all(table[v] == want[v] for v in want)
+    ctx.emit('C16-R7', ok, FEATMOL, f, f'annotation strand filter by stranded: {({str(k): sorted(v) for k, v in table.items()})}' + ('' if ok else
+             ' - expected: no filter only for stranded=None; stranded=False means "same strand as the molecule"'), key='strand-filter-selection',
+             what='FeatureAnnotatedMolecule.annotate: stranded=False is treated as unstranded')
+    ctx.counters['abstract_cases'] += 3
+    # (b) sibling agreement: every findFeaturesAt of findFeaturesBetween is given the strand of the query
+    ms = class_methods(ctx.ix, FEATURES, CLS)
+    fb = ms.get('findFeaturesBetween')
+    sp = [a_.arg for a_ in fb.args.args if a_.arg == 'strand']
+    calls = [c for c in walk_no_nested(fb) if isinstance(c, ast.Call) and isinstance(c.func, ast.Attribute) and c.func.attr == 'findFeaturesAt']
+    at_def = ms.get('findFeaturesAt')
+    pos_index = [a_.arg for a_ in at_def.args.args].index('strand') - 1 if at_def is not None and 'strand' in [a_.arg for a_ in at_def.args.args] else None
+    bad = []
+    for c in calls:
+        given = next((src(k.value) for k in c.keywords if k.arg == 'strand'), None)
+        if given is None and pos_index is not None and len(c.args) > pos_index:
+            given = src(c.args[pos_index])
+        if not sp or given != sp[0]:
+            bad.append(c)
+    ctx.emit('C16-R7', bool(calls) and not bad, FEATURES, bad[0] if bad else fb, f'all {len(calls)} point lookups of findFeaturesBetween carry the query strand' if calls and not bad else
+             f'point lookup `{src(bad[0])[:70] if bad else None}` of findFeaturesBetween does not pass the query strand: features of the other strand covering that edge are returned',
+             key='range-edge-lookups-stranded', what='findFeaturesBetween: an edge lookup ignores the strand')
+    # (c) the accelerator
+    srt = ms.get('sort')
+    st_ = [s_ for s_ in walk_no_nested(srt) if isinstance(s_, ast.Assign) and any(src(t_).startswith('self.fastIndex[') for t_ in s_.targets)]
+    ok, why, und = False, 'self.fastIndex is not filled per contig', False
+    if len(st_) == 1:
+        v = st_[0].value
+        if isinstance(v, ast.Call) and last_name_(dotted(v.func) or '') == 'searchsorted' and len(v.args) >= 2:
+            low = v.args[1]
+            if isinstance(low, ast.Name):
+                dd = [a_.value for a_ in walk_no_nested(srt) if isinstance(a_, ast.Assign) and len(a_.targets) == 1 and src(a_.targets[0]) == low.id]
+                low = dd[-1] if dd else low
+            txt = src(low)
+            side = src(v.args[2]) if len(v.args) > 2 else next((src(k.value) for k in v.keywords if k.arg == 'side'), "'left'")
+            ok = 'min(' in txt and 'findFeaturesAt(' in txt and "optim='nb'" in txt.replace('"', "'") and side.replace('"', "'") == "'left'" and src(v.args[0]).startswith('self.startCoordinates[')
+            why = 'fastIndex = position (left) of the lowest start among the features overlapping each feature start' if ok else f'fastIndex is searchsorted over `{txt[:70]}` (side {side})'
+            und = not ok
+        else:
+            # a sweep over the start-sorted features: the end of the current overlap group must grow with every member
+            loops = [l for l in walk_no_nested(srt) if isinstance(l, ast.For) and any(isinstance(a_, ast.Assign) and any(isinstance(t_, ast.Subscript) and src(t_.value) == src(v) for t_ in a_.targets) for a_ in walk_no_nested(l))] \
+                if isinstance(v, ast.Name) else []
+            if loops:
+                l = min(loops, key=lambda x: sum(1 for _ in walk_no_nested(x)))
+                grows = any(isinstance(c_, ast.Call) and dotted(c_.func) in ('max', 'np.maximum') for a_ in walk_no_nested(l) if isinstance(a_, (ast.Assign, ast.AugAssign)) for c_ in ast.walk(a_.value))
+                if not grows:
+                    ok, why = False, 'fastIndex is built by a sweep whose overlap-group end is never extended by later members: a feature outliving the first one of its group is skipped by lookups to its right'
+                else:
+                    ok, why, und = False, 'fastIndex is built by a sweep (not decided)', True
+            else:
+                why, und = f'fastIndex is computed as `{src(v)[:60]}` (not understood)', True
+    ctx.emit('C16-R7', ok, FEATURES, st_[0] if st_ else srt, 'sort(): ' + why, key='fast-index-derivation', undecided=und and not ok,
+             what='FeatureContainer.sort: the start index of the point lookup skips overlapping features')
 
 
 META = {
